@@ -780,3 +780,78 @@ def describe(case, obs):
             "specified": "inside the round-trip domain (coq/Copyright/DocSpec.v: ml_dom, text_dom, lic_dom, ss_dom, "
                          "lb_dom, wf_copyright) the value read back equals the value put in, the re-read document "
                          "has the same paragraphs with the same values, and the second dump is identical"}
+
+
+# ---------------------------------------------------------------------------
+# TIE BY REGENERATION (DESIGN §3.1b): the field codecs of copyright.py, regenerated from the source on every run
+# (coq/Gen/TrCopyrightFields.v); Copyright/FieldsTie.v proves them equal to the model functions of
+# Copyright/Fields.v on all inputs; Props/C17Tie.v states it.
+from harness import py2coq as _P   # noqa: E402
+
+TIE_FILE = "Props/C17Tie.v"
+
+_STRS = ("list", "str")
+_OSTR = ("option", "str")
+_LIC = ("coq", "license")        # namedtuple License(synopsis, text) = Record license of Copyright/Fields.v
+
+
+def _kw(call, names):
+    call.kw = list(names)
+    return call
+
+
+TR_MODULE = _P.Module(
+    "TrCopyrightFields", "lib/debian/copyright.py",
+    funs=[
+        _P.Fun("tr_single_line", "_single_line", [("s", "str")], "str"),
+        _P.Fun("tr_lb_from_str", "_LineBased.from_str", [("s", _OSTR)], _STRS),
+        _P.Fun("tr_lb_item", "_LineBased.to_str.process_and_validate", [("s", "str")], "str"),
+        _P.Fun("tr_lb_to_str", "_LineBased.to_str", [("seq", _STRS)], _OSTR,
+               locals={"l": _STRS, "tmp": _STRS, "s": "str"}),
+        _P.Fun("tr_ss_from_str", "_SpaceSeparated.from_str", [("s", _OSTR)], _STRS),
+        _P.Fun("tr_ss_to_str", "_SpaceSeparated.to_str", [("seq", _STRS)], _OSTR,
+               locals={"l": _STRS, "tmp": _STRS, "s": "str"}, skip_first=True),
+        _P.Fun("tr_format_multiline_lines", "format_multiline_lines", [("lines", _STRS)], "str",
+               locals={"out_lines": _STRS, "i": "Z", "line": "str"}),
+        _P.Fun("tr_format_multiline", "format_multiline", [("s", _OSTR)], _OSTR),
+        _P.Fun("tr_parse_multiline_as_lines", "parse_multiline_as_lines", [("s", "str")], _STRS,
+               locals={"lines": _STRS, "i": "Z", "line": "str"}),
+        _P.Fun("tr_parse_multiline", "parse_multiline", [("s", _OSTR)], _OSTR),
+        # License.__new__(cls, synopsis, text=''): once with both arguments, once with the default of `text`
+        # taken from the source (the translator binds a trailing parameter left out of the spec to its default)
+        _P.Fun("tr_license_new", "License.__new__", [("synopsis", "str"), ("text", _OSTR)], _LIC, skip_first=True),
+        _P.Fun("tr_license_new1", "License.__new__", [("synopsis", "str")], _LIC, locals={"text": _OSTR},
+               skip_first=True),
+        _P.Fun("tr_license_from_str", "License.from_str", [("s", _OSTR)], ("option", _LIC),
+               locals={"lines": _STRS}, skip_first=True),
+        _P.Fun("tr_license_to_str", "License.to_str", [("self", _LIC)], "str"),
+    ],
+    calls={
+        "<str>.strip": _P.Call("trp_strip", ["str"], "str"),
+        "<str>.splitlines": _P.Call("trp_splitlines", ["str"], _STRS),
+        "<str>.split": _P.Call("trp_split", ["str"], _STRS),
+        "<str>.startswith": _P.Call("trp_startswith", ["str", "str"], "bool"),
+        "<str>.join": _P.Call("trp_join", ["str", _STRS], "str"),
+        "cls._has_space.search": _P.Call("trp_has_space", ["str"], "bool"),
+        "itertools.islice": _P.Call("trp_islice", [_STRS, "Z", ("option", "Z")], _STRS, True),
+        "process_and_validate": _P.Call("tr_lb_item", ["str"], "str", True),
+        "format_multiline_lines": _P.Call("tr_format_multiline_lines", [_STRS], "str", True),
+        "parse_multiline_as_lines": _P.Call("tr_parse_multiline_as_lines", ["str"], _STRS, True),
+        "_single_line": _P.Call("tr_single_line", ["str"], "str", True),
+        # namedtuple construction and field reads: the Record of the model
+        "super(License, cls).__new__": _kw(_P.Call("trp_license_tuple_new", ["unit", "str", "str"], _LIC),
+                                           [None, "synopsis", "text"]),
+        "<license>.@synopsis": _P.Call("trp_license_synopsis", [_LIC], "str"),
+        "<license>.@text": _P.Call("trp_license_text", [_LIC], "str"),
+        # cls(...) inside License.from_str is License.__new__ (namedtuple has no __init__)
+        "cls": [_kw(_P.Call("tr_license_new1", ["str"], _LIC, True), ["synopsis"]),
+                _kw(_P.Call("tr_license_new", ["str", _OSTR], _LIC, True), ["synopsis", "text"])],
+    },
+    consts={"cls": ("tt", "unit")},
+    imports=["Copyright.Fields", "Copyright.FieldsTrPrims"],
+    regexes=[("_SpaceSeparated._has_space", r"\s")])
+
+
+@extract.register("TrCopyrightFields")
+def _gen_tr(repo):
+    return _P.translate_module(repo, TR_MODULE)
